@@ -1,5 +1,6 @@
 import Pfst.JsonUtil
 import Pfst.Links
+import Pfst.SetPos
 import Pfst.OffsetLemmas
 /-! Driver package for C02: link-store operations, the link invariant on dumped graphs, the touched set of the offset
 walk, view window arithmetic. -/
@@ -230,6 +231,25 @@ def dispatch (f : String) (j : Json) : Option Json :=
         out := out.push (Json.arr #[ofNats [b.2.1, b.2.2.1, b.2.2.2], viewJson v, ofNats [a.2.1, a.2.2.1, a.2.2.2],
                                     ofNat (viewLen v la)])
       return Json.arr out
+  | "C02.set_pos" => some <| Id.run do
+      -- chain = [[id, [line, col] | null, has_sibling], ...] self first; new = [line, col]; old = [line, col] | null
+      let parsePair (j : Json) : Option (Int × Int) := do
+        match ← asInts j with
+        | [a, b] => some (a, b)
+        | _ => none
+      let parseLink (j : Json) : Option Pfst.SetPos.Link := do
+        let a ← asArr j
+        if a.size != 3 then none
+        let i ← asNat a[0]!
+        let p ← if isNull a[1]! then some none else (parsePair a[1]!).map some
+        let h ← asBool a[2]!
+        some ⟨i, p, h⟩
+      let some chain := ((getArr j "chain").map (·.toList)).bind (·.mapM parseLink) | return err "bad chain"
+      let some new := (get j "new").bind parsePair | return err "bad new"
+      let old := (get j "old").bind parsePair
+      let r := Pfst.SetPos.setPos new old chain
+      return Json.mkObj [("touched", ofNats r.2),
+                         ("pos", Json.arr (r.1.map (fun l => ofOpt (fun (p : Int × Int) => ofInts [p.1, p.2]) l.pos)).toArray)]
   | "C02.base_indices" => some <| Id.run do
       let some start := getNat j "start" | return err "no start"
       let stop := (get j "stop").bind optNat
